@@ -692,7 +692,7 @@ def _part(arg):
             outcomes[oc] = outcomes.get(oc, 0) + 1
             for clause, msg in f.items():
                 fails.append((clause, fmt, case, msg))
-            if group in ("rich", "fix", "mut") and st["accepted"] and len(samples) < 3 and pk in ("uni", "tmp") and (j // n) % 7 == 0:
+            if group in ("rich", "fix", "mut") and st["accepted"] and pk == "uni" and not any(x["fmt"] == fmt for x in samples):
                 samples.append({"fmt": fmt, "case": case, "outcome": oc, "objects": st["objects"], "accessor_calls": st["calls"]})
             if base.get("mut") and pk == "none" and not st["accepted"]:
                 break          # rejected mutant: nothing to judge, the other path arguments are skipped
@@ -726,7 +726,11 @@ def run(ctx):
             gg["cases"] += v["cases"]; gg["accepted"] += v["accepted"]
         unjudged.update(r["unjudged"])
         samples += r["samples"]
-    samples = sorted(samples, key=lambda s: (s["fmt"], str(s["case"])))[:6]
+    byfmt = {}
+    for smp in sorted(samples, key=lambda s: (s["fmt"], str(s["case"]))):
+        byfmt.setdefault(smp["fmt"], smp)
+    pick = ["docx", "fix-doc", "rtf", "zip", "fix-pdf", "mbox"]
+    samples = [byfmt[f] for f in pick if f in byfmt] or list(byfmt.values())[:6]
     cov = {"evaluations": ev, "distinct_nontrivial": len([o for o in outcomes if not o.startswith("rejected") and o != "n/a"]),
            "exhaustive": True, "documents": ndocs, "accepted_cases": accepted, "result_objects_exercised": objects,
            "accessor_calls": calls, "groups": groups, "alphabet": alphabets(),
